@@ -48,6 +48,7 @@ fn run_line(line: &str) -> String {
         "SHOW" => observe::run_show(args),
         "COUNTS" => header::run_counts(args),
         "SOCK" => mdns::run_sock(args),
+        "SOCKR" => mdns::run_sockr(args),
         "TXTATTR" => textapi::run_txtattr(args),
         "ATTRMAP" => textapi::run_attrmap(args),
         "ESCAPE" => textapi::run_escape(args),
